@@ -347,7 +347,7 @@ func judgeDocker(im *imported, img dockerImage) string {
 type MultiSpec struct {
 	Graphs [2]string `json:"graphs"`
 	Swap   bool      `json:"swap,omitempty"` // index.json lists the second graph first
-	Sel    string    `json:"sel"`            // name0 | name1 | digest0 | digest1 | tag (target tag equals the ref.name of graph 1) | none
+	Sel    string    `json:"sel"`            // name0 | name1 | digest0 | digest1 | tgt-tag1 (target tag equals the ref.name of graph 1) | none
 }
 
 func (m MultiSpec) String() string {
